@@ -75,6 +75,11 @@ type Replay struct {
 	Expect   *Violation      `json:"expected_violation,omitempty"`
 	FP       string          `json:"event_log_hash,omitempty"`
 	Scenario json.RawMessage `json:"scenario"`
+	// Sequence, if set, replaces Scenario: the run indices to generate and execute one after the other
+	// in ONE process (the last one is where the violation shows). Used when a violation depends on
+	// process-wide state left behind by earlier runs, so that a single scenario does not reproduce it.
+	Sequence []int  `json:"sequence,omitempty"`
+	Exclude  string `json:"exclude,omitempty"`
 }
 
 func runSeed(seed uint64, prop string, idx int) uint64 {
@@ -381,6 +386,30 @@ func cmdGen(args []string) {
 
 // runReplay executes a replay file in this process; returns the violation found (or nil).
 func runReplay(p Prop, rp *Replay) (*Violation, *Outcome) {
+	if len(rp.Sequence) > 0 {
+		var v *Violation
+		var o *Outcome
+		for _, idx := range rp.Sequence {
+			sc := p.Gen(runSeed(rp.Seed, rp.Property, idx), parseExclude(rp.Exclude))
+			before := raceLogSize()
+			o = p.Run(sc)
+			v = o.Viol
+			if v == nil && p.Race() {
+				if rep := readRaceLog(before); rep != "" {
+					for _, r := range splitRaceReports(rep) {
+						if sig, in := raceSignature(r); in {
+							v = &Violation{Oracle: "race", Sig: sig, Detail: r}
+							break
+						}
+					}
+				}
+			}
+			if v != nil && idx != rp.Sequence[len(rp.Sequence)-1] {
+				return v, o // fails earlier than recorded: still a violation of this sequence
+			}
+		}
+		return v, o
+	}
 	sc, err := p.Decode(rp.Scenario)
 	if err != nil {
 		fmt.Fprintln(os.Stderr, "bad scenario:", err)
@@ -712,12 +741,56 @@ func cmdDrive(args []string) {
 		// confirm in a fresh process
 		v, _, _ := replayInChild(*scratch, rp, "confirm", p.Race())
 		if !sameViolation(v, firstViol.Viol) {
-			got := "none"
-			if v != nil {
-				got = v.Oracle + "/" + v.Sig
+			// The scenario alone does not reproduce it. The violation may depend on process-wide state left
+			// behind by the runs the same worker executed before: replay that worker's whole sequence.
+			var seq []int
+			for i := firstViol.I % n; i <= firstViol.I; i += n {
+				seq = append(seq, i)
 			}
-			fmt.Fprintf(os.Stderr, "violation did not replay in a fresh process (got %s): nondeterminism in the harness\n", got)
-			os.Exit(2)
+			trySeq := func(sq []int, tag string) bool {
+				cand := &Replay{Property: p.ID(), Seed: *seed, RunIndex: firstViol.I, Code: *code, Sequence: sq, Exclude: exArg}
+				v2, _, _ := replayInChild(*scratch, cand, tag, p.Race())
+				return sameViolation(v2, firstViol.Viol)
+			}
+			if !trySeq(seq, "seq") {
+				got := "none"
+				if v != nil {
+					got = v.Oracle + "/" + v.Sig
+				}
+				fmt.Fprintf(os.Stderr, "violation did not replay in a fresh process, neither alone (got %s) nor as the worker's run sequence: nondeterminism in the harness\n", got)
+				os.Exit(2)
+			}
+			// minimise the sequence: keep the last run, drop chunks of earlier ones
+			deadline := time.Now().Add(time.Duration(cfg.ShrinkS) * time.Second)
+			for size := len(seq) / 2; size >= 1 && time.Now().Before(deadline); {
+				shrunk := false
+				for at := 0; at+size <= len(seq)-1 && time.Now().Before(deadline); at += size {
+					c := append(append([]int{}, seq[:at]...), seq[at+size:]...)
+					if trySeq(c, "seqs") {
+						seq = c
+						shrunk = true
+						break
+					}
+				}
+				if !shrunk {
+					size /= 2
+				}
+			}
+			rp.Sequence, rp.Scenario, rp.Exclude = seq, nil, exArg
+			fmt.Printf("the violation depends on state left by earlier runs in the same process; minimised to the run sequence %v\n", seq)
+			v3, fp3, _ := replayInChild(*scratch, rp, "final", p.Race())
+			if !sameViolation(v3, firstViol.Viol) {
+				fmt.Fprintln(os.Stderr, "minimised run sequence does not replay")
+				os.Exit(2)
+			}
+			rp.Expect, rp.FP = v3, fp3
+			replayPath = filepath.Join(*replayDir, fmt.Sprintf("%s-%d-%d.json", p.ID(), *seed, firstViol.I))
+			jb, _ := json.MarshalIndent(rp, "", " ")
+			os.WriteFile(replayPath, jb, 0o644)
+			fmt.Printf("oracle=%s sig=%s\n%s\n", v3.Oracle, v3.Sig, tail(v3.Detail, 3000))
+			fmt.Printf("%s %s: %d simulated runs\n", p.ID(), *tier, agg.runs)
+			fmt.Printf("VIOLATION property=%s replay=%s\n", p.ID(), replayPath)
+			os.Exit(1)
 		}
 		rp = shrink(p, rp, *scratch, cfg.ShrinkS)
 		v, fp, _ := replayInChild(*scratch, rp, "final", p.Race())
